@@ -204,3 +204,16 @@ Record tcase := { t_checks : list (Z * Z); t_expected : N }.
 Definition tcase_prop_ok (c : tcase) : bool :=
   (N.of_nat (length (t_checks c)) =? t_expected c) &&
   forallb (fun p => (fst p <? snd p)%Z) (t_checks c).
+
+(* the part of the oracle that says "no hop-by-hop field reaches the client", on its own (used to name the finding) *)
+Definition ecase_absent_ok (c : ecase) : bool :=
+  match client_parse_seq (e_v11 c) (map (fun e => q_method (e_req e)) (e_exchs c)) (e_stream c) with
+  | Some (os, _) =>
+      (fix go (os : list obs) (es : list exch) : bool :=
+         match os, es with
+         | o :: os', e :: es' =>
+             forallb (fun n => match field_values n (o_fields o) with [] => true | _ => false end) (x_absent (e_exp e)) && go os' es'
+         | _, _ => true
+         end) os (e_exchs c)
+  | None => true
+  end.
